@@ -272,6 +272,74 @@ class Runner:
         self.coq.append(('ERestart', 'Ob (Some []) %s %s' % (zt(self.eng.next_uid()), cp.lst(self.eng.uids(), zt))))
         self.ctx.count('event.restart')
 
+    def killed_request(self, who, ver, spec, point):
+        """The server process is killed while it handles a one-item request: the request runs in a forked child that
+        exits without any cleanup at `point` ('after_write' = right after the first INSERT/DELETE statement,
+        'before_commit', 'after_commit'); the parent then opens a new engine on the file (hot journal and all).
+        Nobody sees an answer; whether the transaction reached the file is read from the file."""
+        import os
+        eng, tr = self.eng, self.tr
+        c = dict(spec)
+        if 'tgt' in spec:
+            c['tgt_uid'] = self.resolve(spec['tgt'])
+        if 'bases' in spec:
+            c['base_uids'] = [self.resolve(b) for b in spec['bases']]
+        before_next, before_uids = eng.next_uid(), eng.uids()
+        req = eng.build([build_item(c, ver)], version=ver)
+        pid = os.fork()
+        if pid == 0:                                   # ---- child: never returns
+            try:
+                import sqlalchemy
+                ds = eng.engine._data_store
+                if point == 'before_commit':
+                    sqlalchemy.event.listen(ds, 'commit', lambda conn: os._exit(0))
+                elif point == 'after_write':
+                    def hook(conn, cursor, statement, parameters, context, executemany):
+                        if statement.lstrip()[:6].upper() in ('INSERT', 'DELETE', 'UPDATE'):
+                            os._exit(0)
+                    sqlalchemy.event.listen(ds, 'after_cursor_execute', hook)
+                else:
+                    sqlalchemy.event.listen(eng.engine._data_store_session_factory, 'after_commit', lambda session: os._exit(0))
+                eng.process(req, USERS[who], None)
+            finally:
+                os._exit(0)
+        os.waitpid(pid, 0)
+        try:
+            eng.engine._data_store.dispose()
+        except Exception:
+            pass
+        eng.restart()
+        after_next, after_uids = eng.next_uid(), eng.uids()
+        new = [u for u in after_uids if u not in before_uids]
+        gone = [u for u in before_uids if u not in after_uids]
+        committed = bool(new or gone or after_next != before_next)
+        c['gate'] = committed
+        c['killed_at'] = point
+        ev_index = len(self.events)
+        self.coq.append(('Rq %d %d false [It %s %s]' % (who, ver[0] * 10 + ver[1], op_term(c), cp.boolean(committed)),
+                         'ObK %s %s' % (zt(after_next), cp.lst(after_uids, zt))))
+        self.events.append({'ev': 'killed', 'who': who, 'ver': list(ver), 'point': point, 'items': [strip(c)],
+                            'committed': committed, 'next_uid': after_next, 'uids': after_uids})
+        self.ctx.count('event.killed.%s.%s' % (point, 'committed' if committed else 'lost'))
+        # identifiers the killed transaction consumed were issued as far as the database is concerned
+        ts = ['TPub', 'TPriv'] if c['op'] == 'ckp' else [c.get('t', 'TSym')]
+        for u, t in zip(new, ts):
+            if self.oracle and u in self.ever:
+                self.hit({'kind': 'reuse', 'op': c['op'], 'killed_at': point},
+                         'identifier %d handed to an object created by a request killed at %s was already issued earlier' % (u, point),
+                         ev_index, {'identifier': u})
+            self.ever.add(u)
+            tr.issued(u, who, t, bool(c.get('rich')))
+        for u in gone:
+            tr.destroyed.setdefault(u, ev_index)
+        if self.oracle:
+            for u in tr.destroyed:
+                if u in after_uids:
+                    self.hit({'kind': 'dead-row'}, 'managed_objects holds a row for destroyed identifier %d after the kill' % u, ev_index,
+                             {'identifier': u})
+        self.coq.append(('ERestart', 'Ob (Some []) %s %s' % (zt(after_next), cp.lst(after_uids, zt))))
+        self.events.append({'ev': 'restart'})
+
     def request(self, who, ver, cont, specs):
         """who: index into USERS; specs: abstract items with symbolic targets (resolved now)."""
         eng, tr = self.eng, self.tr
@@ -509,9 +577,10 @@ def owner_of(tr, eng, tgt, rng):
     return rng.randrange(len(USERS))
 
 
-def gen_history(ctx, rng, run, length, ckp_budget):
+def gen_history(ctx, rng, run, length, ckp_budget, kill_budget=2):
     tr, eng = run.tr, run.eng
     ckp = [ckp_budget]
+    kills = [kill_budget]
 
     def creating(cheap=None):
         s = gen_create_spec(rng, tr, cheap=(ckp[0] <= 0) if cheap is None else cheap)
@@ -529,6 +598,21 @@ def gen_history(ctx, rng, run, length, ckp_budget):
             run.request(owner_of(tr, eng, tgt, rng), ver, False, [{'op': 'destroy', 'tgt': tgt}])
             if rng.random() < 0.35:
                 run.restart(dispose=rng.random() < 0.5)
+            run.request(rng.randrange(3), pick_version(rng), False, [creating()])
+            n += 2
+        elif x < 0.17 and kills[0] > 0:                # the server is killed while creating / destroying, then create
+            ctx.count('pattern.kill_then_create')
+            kills[0] -= 1
+            point = rng.choice(['after_write', 'before_commit', 'after_commit'])
+            if rng.random() < 0.6:
+                spec = creating(cheap=True)
+                if spec['op'] == 'derive':
+                    spec = {'op': 'create', 'good': True, 'rich': True}
+                spec['good'] = True
+                run.killed_request(rng.randrange(3), ver, spec, point)
+            else:
+                tgt = ['newest']
+                run.killed_request(owner_of(tr, eng, tgt, rng), ver, {'op': 'destroy', 'tgt': tgt}, point)
             run.request(rng.randrange(3), pick_version(rng), False, [creating()])
             n += 2
         elif x < 0.22:                                 # restart, then create
@@ -635,6 +719,12 @@ def scenarios():
                 ('req', 0, (1, 2), False, [D(['ref', 0])]),
                 ('req', 0, (1, 2), False, [{'op': 'derive', 'bases': [['ref', 0]], 't': 'TSym', 'good': True}]),
                 ('req', 0, (1, 2), False, [{'op': 'getwrapped', 'tgt': ['ref', 0], 'w': ['ref', 2]}])])
+    # the server is killed while it creates / destroys, at three points of the transaction; then the next create
+    for point in ('after_write', 'before_commit', 'after_commit'):
+        out.append([('req', 0, (1, 2), False, [C]), ('killed', 0, (1, 2), C, point), ('req', 1, (1, 2), False, [C]),
+                    ('killed', 0, (1, 2), D(['ref', 0]), point), ('req', 0, (1, 2), False, [G(['ref', 0])]),
+                    ('killed', 1, (1, 2), D(['newest']), point), ('req', 2, (1, 2), False, [C]),
+                    ('req', 1, (1, 2), False, [{'op': 'locate'}]), ('req', 0, (1, 2), False, [{'op': 'locate'}])])
     return out
 
 
@@ -642,6 +732,9 @@ def play(run, script):
     for ev in script:
         if ev[0] == 'restart':
             run.restart()
+        elif ev[0] == 'killed':
+            _, who, ver, spec, point = ev
+            run.killed_request(who, tuple(ver), dict(spec), point)
         else:
             _, who, ver, cont, specs = ev
             run.request(who, tuple(ver), cont, [dict(s) for s in specs])
@@ -649,9 +742,17 @@ def play(run, script):
 
 def replay_events(run, events):
     """Re-run a recorded history (events as stored in a replay file)."""
+    skip_restart = False
     for ev in events:
         if ev['ev'] == 'restart':
-            run.restart()
+            if not skip_restart:
+                run.restart()
+            skip_restart = False
+        elif ev['ev'] == 'killed':
+            it = ev['items'][0]
+            spec = {k: v for k, v in it.items() if k in ('op', 'good', 'rich', 't', 'bases', 'tgt', 'w', 'k', 'variant')}
+            run.killed_request(ev['who'], tuple(ev['ver']), spec, ev['point'])
+            skip_restart = True                        # killed_request records its own restart event
         else:
             specs = [{k: v for k, v in it.items() if k in ('op', 'good', 'rich', 't', 'bases', 'tgt', 'w', 'k', 'variant')}
                      for it in ev['items']]
@@ -738,7 +839,7 @@ def run(ctx):
             for h in run_.hits:
                 all_hits.append(h)
             for ev, (evt, obt) in zip(run_.events, run_.coq):
-                nontriv = ev['ev'] == 'req' and any(i.get('class') not in (None, 'RLocated', 'RFailed') for i in ev['items'])
+                nontriv = ev['ev'] == 'killed' or ev['ev'] == 'req' and any(i.get('class') not in (None, 'RLocated', 'RFailed') for i in ev['items'])
                 ctx.case_seen((evt, obt), nontrivial=nontriv)
         finally:
             eng.close()
